@@ -17,12 +17,13 @@ Proof. intros H. unfold norm_idx. destruct (Z.ltb_spec (- Z.of_nat c) 0); lia. Q
 Theorem gen_trim_slice_model (ntrim ctrim : nat) (s : str) : gen_trim_slice ntrim ctrim s = pyslice ntrim ctrim s.
 Proof.
   unfold gen_trim_slice, py_slice, pyslice.
-  assert (B : match (if negb (Nat.eqb ctrim 0) then Some (- Z.of_nat ctrim)%Z else None) with
-              | None => length s | Some i => norm_idx (length s) i end = length s - ctrim).
-  { destruct (Nat.eqb_spec ctrim 0) as [->|N]; cbn [negb].
-    - lia.
-    - apply norm_idx_neg, N. }
-  rewrite B, norm_idx_nonneg.
+  (* whatever test of ctrim selects the upper bound (`if ctrim`, `ctrim > 0`, `ctrim != 0`, ..), it computes once ctrim is 0 or a successor *)
+  assert (B : forall stop : option Z,
+             stop = match ctrim with 0 => None | S _ => Some (- Z.of_nat ctrim)%Z end ->
+             match stop with None => length s | Some i => norm_idx (length s) i end = length s - ctrim).
+  { intros stop ->. destruct ctrim as [|c]; [lia|]. apply norm_idx_neg. discriminate. }
+  rewrite B by (destruct ctrim as [|c]; reflexivity).
+  rewrite norm_idx_nonneg.
   destruct (Nat.le_gt_cases ntrim (length s)) as [L|G].
   - rewrite Nat.min_l by exact L. f_equal; lia.
   - rewrite Nat.min_r by lia. rewrite (skipn_beyond s (length s)) by lia. rewrite (skipn_beyond s ntrim) by lia.
